@@ -83,6 +83,31 @@ def _worlds(f, S, is_unlink, is_errmark, reformat):
                 continue
             if any(c.get("fn") in ("close", "renameat") for c in calls(cfg.resolve(rhs))):
                 tracked.add(lv(l))
+    # ... and status flags: locals that only ever receive integer constants or copies of tracked values
+    defs = {}
+    for b, i, x, line in cfg.all_elems():
+        for l, kind, n in writes(x):
+            rhs = n.get("init") if kind == "decl" else (n.get("r") if n.get("k") == "bin" and n["op"] == "=" else None)
+            defs.setdefault(lv(l), []).append(None if rhs is None and kind != "decl" else rhs)
+    changed = True
+    while changed:
+        changed = False
+        for v, ds in defs.items():
+            if v in tracked or not v or "->" in v or "." in v or "[" in v:
+                continue
+            ok = True
+            for d in ds:
+                if d is None:
+                    continue   # declaration without initialiser
+                d_ = strip_casts(cfg.resolve(d))
+                if int_value(d_) is not None or (d_.get("k") == "un" and d_["op"] == "-" and int_value(strip_casts(d_["e"])) is not None):
+                    continue
+                if lv(d_) in tracked:
+                    continue
+                ok = False
+            if ok and any(d is not None for d in ds):
+                tracked.add(v)
+                changed = True
     def is_site(x):
         return isinstance(x, dict) and x.get("k") == "call" and x.get("fn") == S.node.get("fn") and x.get("line") == S.node.get("line")
     out = {}
